@@ -48,6 +48,22 @@ CHECKS = {
         "Distinct priorities per actor; ties between two equally near admissible values accept both; preference 0 accepts 0.",
         "DESIGN.md section 3 C04",
     ),
+    "C15": (
+        "Hypothesis PBT with injected per-call API faults (5 outcomes per set_power call, all 5^n vectors for small n): accounting identities against recorded calls",
+        "Real BatteryManager and PVManager on a fake API whose every set_power call returns, is rejected, errors, raises or "
+        "hangs until the (virtual-time) timeout as the generated vector says; the Result is checked against the recorded calls. "
+        "Fault-vector space is enumerated completely for n<=2 calls per case, sampled beyond. Exploration level.",
+        "Component status trackers stubbed to 'all working'; virtual clock (async_solipsism); tolerance 1e-6.",
+        "DESIGN.md section 3 C15",
+    ),
+    "C17": (
+        "Hypothesis PBT, differential: advertised SystemBounds (PowerBoundsCalculator) vs admission by a real BatteryManager for probes on/around every advertised bound",
+        "For generated topologies with shared inverters/batteries and exact (half-integer) bounds, every admitted probe power is "
+        "sent to a real BatteryManager with both adjust_power settings; OutOfBounds is a violation; enforced inclusion bounds "
+        "are read back from a provoked rejection and compared with the advertised ones. Exploration level.",
+        "Complete data, all batteries working; a probe exactly on an advertised exclusion bound is not required to be accepted.",
+        "DESIGN.md section 3 C17",
+    ),
     "C18": (
         "Hypothesis PBT: exact Fraction reference model + metamorphic relations (range, monotone, scale)",
         "Generated battery sets (metric presence, working subsets, degenerate limits, zero capacity) are compared "
